@@ -19,10 +19,11 @@ from ..rules import call_sites
 from ..mutate import mutate, remove_stmts, replace_stmt, replace_expr, parse_stmt, parse_expr
 from ..model import AnalysisError
 from ..x_scope import own_nodes
+from ..x_flow import check_default_only_for_none
 
 TECHNIQUE = "path-sensitive typestate on the CFG with abstract evaluation of the wait-status predicates and exhaustive folding of the budget test"
 EXPLANATION = (
-    "fork_processes is explored path-sensitively: at os.wait() the status is one of {signal, exit0, exitN}; each branch condition that mentions "
+    "fork_processes is explored path-sensitively: at os.wait() the status is one of the abstract statuses {signal 1/9/15, exit 0/1/2/255}; each branch condition that mentions "
     "the status is folded for every class and prunes the set; the restart call must be reached with the popped id, only for abnormal classes, "
     "after exactly one counter increment and the budget test, and every abnormal path must restart or raise before the next wait; a forked child "
     "(non-None result of start_child) must return that result before any other supervisor action; sys.exit is guarded by `not children`; "
@@ -33,14 +34,17 @@ LEVEL_NOTE = "assumption A-wait: for a signal-terminated status os.WEXITSTATUS()
 
 F = "tornado/process.py"
 FN = "fork_processes"
-CLASSES = ("sig", "exit0", "exitN")
+# abstract wait statuses: name -> (signalled?, terminating signal, exit status)
+STATUS = {"sig1": (True, 1, 0), "sig9": (True, 9, 0), "sig15": (True, 15, 0), "exit0": (False, 0, 0), "exit1": (False, 0, 1), "exit2": (False, 0, 2), "exit255": (False, 0, 255)}
+CLASSES = tuple(STATUS)
+ABNORMAL = frozenset(c for c in STATUS if c != "exit0")
 
 
 def _status_subst(e, status, cls):
     """Copy of expression ``e`` with the os.W* macros on ``status`` replaced by their value for class ``cls``."""
     table = {
-        "WIFSIGNALED": cls == "sig", "WIFEXITED": cls != "sig", "WEXITSTATUS": 3 if cls == "exitN" else 0,
-        "WTERMSIG": 9 if cls == "sig" else 0, "WIFSTOPPED": False, "WCOREDUMP": False, "WIFCONTINUED": False,
+        "WIFSIGNALED": STATUS[cls][0], "WIFEXITED": not STATUS[cls][0], "WEXITSTATUS": STATUS[cls][2],
+        "WTERMSIG": STATUS[cls][1], "WIFSTOPPED": False, "WCOREDUMP": False, "WIFCONTINUED": False,
     }
 
     class T(ast.NodeTransformer):
@@ -165,7 +169,7 @@ def supervisor_typestate(ck, A):
         classes, popped, counted, checked, restarted, pending, _cb = val
         if classes is None or not popped:
             return
-        abnormal = bool(set(classes) & {"sig", "exitN"})
+        abnormal = bool(set(classes) & ABNORMAL)
         if abnormal:
             rec("C41.restart-iff-abnormal", A.wait, restarted == 1,
                 "a worker whose reaped status may be abnormal (%s) is restarted exactly once before the next wait (or the supervisor raises)" % "/".join(sorted(classes)),
@@ -323,10 +327,32 @@ def rule_unknown_pid(ck, A):
     ck.floor("C41.unknown-pid", cnt, 1, "lookups of the reaped pid")
     # the loop runs while there are children; success exit only when none is left
     t = A.loop.test
-    ck.ob("C41.exit-when-empty", fi, t, q.dotted(t) == A.children, "the supervisor loop runs while the children map is non-empty", construct="loop-test " + q.unparse(t))
+    try:
+        loop_ok = bool(q.fold(t, {A.children: (1,)})) and bool(q.fold(t, {A.children: (1, 2)})) and not bool(q.fold(t, {A.children: ()}))
+    except q.NotFoldable as e:
+        raise AnalysisError("supervisor loop test %s not foldable over the children map (%s)" % (q.unparse(t), e))
+    ck.ob("C41.exit-when-empty", fi, t, loop_ok, "the supervisor loop runs exactly while the children map is non-empty", construct="loop-test " + q.unparse(t))
     ex = call_sites(fi, "sys.exit")
     for node, c in ex:
-        ck.ob("C41.exit-when-empty", fi, c, holds(facts[node.id], A.children, False), "sys.exit is reached only with no child left (all exited normally or were replaced)")
+        conds = []
+        for t, pol in facts[node.id]:
+            if t.startswith("@"):
+                continue
+            try:
+                te = ast.parse(t, mode="eval").body
+            except SyntaxError:
+                continue
+            if q.names_in(te) - {"len", "bool"} == {A.children}:
+                conds.append((te, pol))
+
+        def consistent(val):
+            try:
+                return all(bool(q.fold(te, {A.children: val})) == pol for te, pol in conds)
+            except q.NotFoldable:
+                return True
+
+        only_empty = bool(conds) and consistent(()) and not consistent((1,)) and not consistent((1, 2))
+        ck.ob("C41.exit-when-empty", fi, c, only_empty, "sys.exit is reached only with no child left (all exited normally or were replaced)")
         a0 = c.args[0] if c.args else None
         ck.ob("C41.exit-when-empty", fi, c, a0 is None or q.is_const(a0, 0) or q.is_const(a0, None), "the success exit reports status 0", construct="exit-status " + q.unparse(c))
     ck.floor("C41.exit-when-empty", len(ex), 1, "sys.exit sites")
@@ -405,7 +431,21 @@ def rule_start_child(ck, A):
         ck.ob("C41.task-id", sc, st, isinstance(t, ast.Subscript) and q.dotted(t.slice) == pidn and q.dotted(st.value) == idp, "the parent records children[<forked pid>] = <task id>")
 
 
+def rule_defaults(ck, A):
+    """Class 'truthiness test where 0 is a legal value': the defaults of the numeric parameters replace None only."""
+    fi = A.fi
+    cfg = fi.cfg
+    in_loop = lambda astn: any(a is A.loop for a in q.ancestors(A.pm, astn))
+    is_btest = lambda n: n.kind == "test" and A.maxr in q.names_in(n.ast) and in_loop(n.ast)
+    k = check_default_only_for_none(ck, "C41.defaults", fi, A.maxr, [0, 1, 2, 3, 7, 100], is_btest,
+                                    "restart budget (0 = never restart is a legal budget)")
+    is_start_loop = lambda n: n.kind == "for" and isinstance(n.ast.iter, ast.Call) and q.dotted(n.ast.iter.func) == "range" and any(q.dotted(a) == A.np for a in n.ast.iter.args)
+    k += check_default_only_for_none(ck, "C41.defaults", fi, A.np, [1, 2, 3, 8], is_start_loop, "number of workers")
+    ck.floor("C41.defaults", k, 8, "parameter values propagated")
+
+
 def run(ck):
+    ck.rule("C41.defaults", "defaults of max_restarts / num_processes replace only None (resp. documented non-positive counts): every legal caller value, including 0 restarts, reaches its use unchanged")
     ck.rule("C41.initial-start", "each id in range(num_processes) is started exactly once, unconditionally")
     ck.rule("C41.restart-iff-abnormal", "start_child in the supervisor loop is reached only for signalled / non-zero statuses, and every such status is restarted once (or the supervisor raises) before the next wait")
     ck.rule("C41.restart-same-id", "the restart passes the id popped for the reaped pid")
@@ -416,6 +456,7 @@ def run(ck):
     ck.rule("C41.task-id", "start_child: the child branch sets the module-global task id (declared global) and returns it; the parent branch records pid -> id and returns None")
     A = resolve(ck)
     rule_initial_loop(ck, A)
+    rule_defaults(ck, A)
     supervisor_typestate(ck, A)
     rule_unknown_pid(ck, A)
     rule_start_child(ck, A)
@@ -483,6 +524,12 @@ def _count_only_signals(root):
 
 
 MUTANTS = [
+    ("seeded C41-adv1: budget default applied by truthiness (0 becomes 100)", _m(replace_stmt(lambda st: isinstance(st, ast.If) and _src(st.test) == "max_restarts is None", lambda st: [parse_stmt("max_restarts = max_restarts or 100")])), "C41.defaults"),
+    ("budget default applied with `if not max_restarts`", _m(replace_expr(lambda n: isinstance(n, ast.Compare) and _src(n) == "max_restarts is None", lambda n: parse_expr("not max_restarts"))), "C41.defaults"),
+    ("worker count clamped to at least 2", _m(replace_expr(lambda n: isinstance(n, ast.Compare) and _src(n) == "num_processes <= 0", lambda n: parse_expr("num_processes <= 1"))), "C41.defaults"),
+    ("child with task id 0 not recognised (truthiness test on the id)", _m(replace_expr(lambda n: isinstance(n, ast.Compare) and _src(n) == "id is not None", lambda n: ast.Name(id="id", ctx=ast.Load()))), "C41.child-returns"),
+    ("exit status 1 treated as a normal exit", _m(replace_expr(lambda n: isinstance(n, ast.Compare) and _src(n) == "os.WEXITSTATUS(status) != 0", lambda n: parse_expr("os.WEXITSTATUS(status) > 1"))), "C41.restart-iff-abnormal"),
+    ("workers terminated by SIGTERM are not restarted", _m(replace_expr(lambda n: isinstance(n, ast.Call) and _src(n) == "os.WIFSIGNALED(status)", lambda n: parse_expr("os.WIFSIGNALED(status) and os.WTERMSIG(status) != 15"))), "C41.restart-iff-abnormal"),
     ("restart also after a normal exit", _m(_drop_normal_continue), "C41.restart-iff-abnormal"),
     ("workers killed by a signal are not restarted", _m(_signal_not_restarted), "C41.restart-iff-abnormal"),
     ("restart with the loop variable instead of the popped id", _m(replace_expr(lambda n: isinstance(n, ast.Call) and _src(n) == "start_child(id)", lambda n: parse_expr("start_child(i)"))), "C41.restart-same-id"),
